@@ -100,6 +100,8 @@ def units(tier):
         for sh in range(n):
             out.append({'fam': 'ag', 'op': oi, 'keys': [0, 1], 'values': [1, 2], 'depth': d2, 'shard': [sh, n]})
         out.append({'fam': 'ag', 'op': oi, 'keys': [0, 1, 3], 'values': [1], 'depth': d3, 'shard': [0, 1]})
+    for oi in range(len(ops)):
+        out.append({'fam': 'abort', 'op': oi, 'depth': 4 if tier == 'quick' else 6})
     nest = [[p] for p in PARENTS_B] + [[p, q] for p in PARENTS_B for q in PARENTS_B]
     if tier != 'quick':
         nest += [[p, q, r] for p in HO[::2] + ['tee_zipa', 'tee_clb'] for q in HO[1::2] + ['tee_mergea'] for r in PARENTS_B[::3]]
@@ -109,6 +111,19 @@ def units(tier):
 
 
 def cases(unit):
+    if unit['fam'] == 'abort':
+        # a well-formed prefix, then ONE mux error for a live key, after which the stream is abandoned (in a real pipeline the
+        # unhandled error becomes on_error at the demultiplexer and nothing follows)
+        for seq in spaces.wf_sequences([0, 1], [1, 2], unit['depth'], closed=False):
+            live = []
+            for e in seq:
+                if e[0] == 'c':
+                    live.append(e[1])
+                elif e[0] == 'd':
+                    live.remove(e[1])
+            for k in live:
+                yield {'fam': 'abort', 'op': unit['op'], 'events': [list(e) for e in seq] + [['e', k, 'boom']]}
+        return
     if unit['fam'] == 'ag':
         sh, n = unit['shard']
         for i, seq in enumerate(spaces.wf_sequences(unit['keys'], unit['values'], unit['depth'])):
@@ -142,6 +157,23 @@ def _run_case(case, acc):
     mon = monitor.MON
     mon.reset()
     out = []
+    if case['fam'] == 'abort':
+        from ..drivers import RawStepper
+        name, spec = ag_ops()[case['op']]
+        events = [tuple(e) if e[0] != 'e' else ('e', e[1], ValueError(e[2])) for e in case['events']]
+        st = RawStepper(opspecs.build(spec))
+        for e in events:
+            st.push(e)
+        acc.evals += 1
+        acc.traces += 1
+        acc.events += mon.events
+        label = (name if name != 'leaf' else '+'.join(harness.opnames(spec))) + ':unhandled-error'
+        if mon.problems:
+            out.append(viol('ag', label, mon.problems, {'spec': spec, 'events': case['events']}))
+        # the higher-order operators turn the unhandled error into on_error at their demultiplexer: expected, not checked
+        acc.count('unhandled_error_prefixes')
+        acc.outcomes.add(fast_hash(repr((label, st.sink.items))))
+        return out
     if case['fam'] == 'ag':
         name, spec = ag_ops()[case['op']]
         events = [tuple(e) for e in case['events']]
